@@ -185,8 +185,26 @@ def param_unit(form, entry, iters=2):
             def frozen_rvs(self_, size=None, random_state=None):
                 n = 1 if size is None else int(size)
                 return self_.dist._random_state.gamma(1.0, scale=1.0, size=n)
-            with global_rng(stream), stubs.patched((np.random, "RandomState", ent.RandomState), (rv_frozen, "rvs", frozen_rvs)):
-                if form == "tuple":
+            extra = []
+            if form == "tuple_beta":
+                # scipy.stats samplers draw from numpy's global generator unless they are handed one of their own;
+                # np.random.default_rng() without a seed is a fresh entropy source
+                class _Beta(object):
+                    @staticmethod
+                    def rvs(a_, b_, size=None, random_state=None):
+                        src = stream if random_state is None else random_state
+                        return src.uniform(0, 1, size=size)
+
+                class _St(object):
+                    beta = _Beta()
+                extra = [(distn, "st", _St()), (np.random, "default_rng", ent.RandomState)]
+            with global_rng(stream), stubs.patched((np.random, "RandomState", ent.RandomState), (rv_frozen, "rvs", frozen_rvs), *extra):
+                if form == "tuple_beta":
+                    # a sampler of the helper module that does not document seeding, wrapped to return one number
+                    def beta1(n_, a_, b_):
+                        return np.asarray(distn.rbeta(n_, a_, b_), dtype=object).ravel()[0]
+                    m.parameters = {"b": (beta1, (shape, rate)), "g": g}
+                elif form == "tuple":
                     m.parameters = {"b": (distn.rgamma, (shape, rate)), "g": g}
                 elif form == "tuple_kwargs":
                     m.parameters = {"b": (distn.rgamma, {"shape": shape, "rate": rate}), "g": g}
@@ -242,7 +260,8 @@ class C16(Check):
                    "changes the output.  A frozen distribution holds a REFERENCE to the global generator (a deep copy of it is a detached snapshot); one "
                    "unit replays the history 'two random parameters, later one fixed by a partial update'.  Prime iteration counts (101; 1009 thorough) "
                    "make any block-wise averaging of the mean visible.  One tau-leap unit runs with a fixed leap size set on the model (symbolic pre_tau): the "
-                   "setting must still be in force after the runs.")
+                   "setting must still be in force after the runs.  Parameter samplers include utilR.rbeta (scipy's sampler by contract: the global generator "
+                   "unless it is handed one).")
     stubs = ["numpy global RNG -> symbolic stream keyed by seed", "np.random.RandomState() -> fresh unconstrained stream",
              "rv_frozen.rvs -> draws from the generator the frozen distribution holds: a reference to the global stream (scipy's default); a deep copy of it is a detached snapshot",
              "scipy integrators by contract; flows named by (f at t0, x0, t0): same ODE and initial condition => same flow",
@@ -260,7 +279,8 @@ class C16(Check):
               param_unit("frozen_then_constant", "solve_determ"),
               # a PRIME iteration count: any block-wise / chunked averaging with block size < 101 shows
               param_unit("tuple", "simulate_param", iters=101), param_unit("frozen", "solve_determ", iters=3),
-              param_unit("tuple_normal", "solve_determ"), param_unit("tuple_normal", "simulate_param", iters=3)]
+              param_unit("tuple_normal", "solve_determ"), param_unit("tuple_normal", "simulate_param", iters=3),
+              param_unit("tuple_beta", "solve_determ"), param_unit("tuple_beta", "simulate_param")]
         if tier != "quick":
             us += [stochast_unit(specs["shape_2x2"], True, 4), stochast_unit(specs["shape_2x2"], False, 3),
                    stochast_unit(expr.by_name("sir"), True, 4), stochast_unit(specs["shape_3x3"], True, 3),
